@@ -39,6 +39,30 @@ impl ErrTag for () {
         "d".into()
     }
 }
+// error types of other shapes (a definition's error callback builds them from the span length; the derived default is all zeros / None)
+impl ErrTag for (u8, usize) {
+    fn tag(&self) -> String {
+        if self.0 == 7 { format!("b{}", self.1) } else { "d".into() }
+    }
+}
+impl ErrTag for [usize; 2] {
+    fn tag(&self) -> String {
+        if self[0] == 7 { format!("b{}", self[1]) } else { "d".into() }
+    }
+}
+impl ErrTag for Option<usize> {
+    fn tag(&self) -> String {
+        match self {
+            Some(n) => format!("b{n}"),
+            None => "d".into(),
+        }
+    }
+}
+impl ErrTag for (usize,) {
+    fn tag(&self) -> String {
+        if self.0 >= 100 { format!("b{}", self.0 - 100) } else { "d".into() }
+    }
+}
 impl ErrTag for ZErr {
     fn tag(&self) -> String {
         match self {
